@@ -139,6 +139,10 @@ pub fn run_family(name: &str, thorough: bool) -> Vec<Value> {
             p.dec("zero-e".into(), "sig.from_bytes", &replace(&f.sig, 48, &[0u8; 32]), &["forbidden-zero-e"]);
             p.dec("modulus-e".into(), "sig.from_bytes", &replace(&f.sig, 48, &modulus_r()), &["noncanonical"]);
         }
+        "sig_allflips" => {
+            decoder_family(&mut p, "sig.from_bytes", &f.sig, true, true);
+            decoder_family(&mut p, "pok.from_bytes", &f.proof, true, false);
+        }
         "pok" => {
             decoder_family(&mut p, "pok.from_bytes", &f.proof, thorough, false);
             for (k, nm) in [(0usize, "Abar"), (48, "Bbar"), (96, "D")] {
@@ -172,6 +176,7 @@ pub fn run_family(name: &str, thorough: bool) -> Vec<Value> {
         "blind_complete" => { crate::props::blind_complete::<Sha>("sha256", &mut p.out, thorough); crate::props::blind_complete::<Shake>("shake256", &mut p.out, thorough); }
         "blind_sound" => { crate::props::blind_sound::<Sha>("sha256", &mut p.out, thorough); crate::props::blind_sound::<Shake>("shake256", &mut p.out, thorough); }
         "update_history" => { crate::props::update_history::<Sha>("sha256", &mut p.out, thorough); crate::props::update_history::<Shake>("shake256", &mut p.out, thorough); }
+        "generators" => { crate::props::generators::<Sha>("sha256", &mut p.out, thorough); crate::props::generators::<Shake>("shake256", &mut p.out, thorough); }
         "fresh" => { crate::props::fresh::<Sha>("sha256", &mut p.out); crate::props::fresh::<Shake>("shake256", &mut p.out); }
         "consts" => {
             consts::run(&mut p.out);
